@@ -137,6 +137,9 @@ def axes_of(hist, probe):
 
 class C11(core.Check):
     pid = 'C11'
+    unproved = [
+        'the engine run itself (equal effective parameters and candles give equal results) and the completeness of store.reset(): fresh-process oracle',
+    ]
     gen_keys = []
     rule = ('correspondence: random call histories (1-6 earlier research.backtest calls, then a probe) executed in ONE fresh '
             'python process outside pytest (production branches of jh.get_config / CACHED_CONFIG active), no harness-side '
